@@ -327,6 +327,7 @@ def run(eng, rep):
                 "factorise_geom_system validates the cache, after recomputing Q, R from a fresh matrix (T3); no Model field is written outside the class (T1); "
                 "affine normal forms show model_const + J.(s - xbase) and model_const + J.points[k] invariant under shift_base (T7), whose argument is xopt() "
                 "and across which live relative locals are re-based.")
+    rep.explain('Also decided: no stored Model array is modified in place through a local it is a view of (T11, C16-5).')
     rep.not_decided += ["interpolation / least-squares / Lagrange identities and their conditioning-scaled tolerances (numerical)"]
     rule_invalidation(eng, rep)
     rule_ownership(eng, rep)
